@@ -105,7 +105,10 @@ class CaseCtx:
         return ("?", u["file"], u["line"], u["sc"], u["ec"], u["name"])
 
     def use_pos(self, u):
-        return self.files[u["file"]].use_pos[(u["idx"], u["uk"], u["ui"])]
+        """where a cursor is ON the usage (for several names in one indirect string: the name's own characters)"""
+        r = self.files[u["file"]]
+        k = (u["idx"], u["uk"], u["ui"])
+        return r.probe_pos.get(k) or r.use_pos[k]
 
     def all_defs(self):
         out = []
@@ -806,6 +809,7 @@ def check_c08(tier):
         V.notes["large_workspace_processes"] = nl
     # the import universe: a test module that imports fixtures itself, next to an unrelated same-named sibling conftest
     import diskchecks
+    V.notes["field_level_order_runs"] = diskchecks.c08_field_orders(V, tier)
     n_imp, meta_imp = diskchecks.c08_own_imports(V, tier)
     replayed += 2 * n_imp
     V.notes["own_import_cases"] = n_imp
